@@ -78,3 +78,96 @@ pub fn layouts() -> [(usize, usize); 2] {
         (std::mem::size_of::<Value>(), std::mem::align_of::<Value>()),
     ]
 }
+
+// ---- forced collection schedule and quarantine (per thread) ----
+
+use std::cell::{Cell, RefCell};
+
+/// Which allocations (counted from the moment the schedule is installed) run a collection first
+#[derive(Clone, Debug)]
+pub enum GcSchedule {
+    /// only the collections the allocator decides on itself
+    None,
+    Every,
+    /// exactly the allocation with this index
+    Single(usize),
+    /// the allocations whose index `i` has bit `i % 64` set
+    Mask(u64),
+}
+
+thread_local! {
+    static GC_SCHEDULE: RefCell<GcSchedule> = const { RefCell::new(GcSchedule::None) };
+    static GC_ALLOC_INDEX: Cell<usize> = const { Cell::new(0) };
+    static GC_FORCED: Cell<usize> = const { Cell::new(0) };
+    static QUARANTINE: Cell<bool> = const { Cell::new(false) };
+    static QUARANTINED: RefCell<Vec<NonNull<CaoLangObject>>> = const { RefCell::new(Vec::new()) };
+}
+
+pub fn set_gc_schedule(s: GcSchedule) {
+    GC_SCHEDULE.with(|c| *c.borrow_mut() = s);
+    GC_ALLOC_INDEX.with(|c| c.set(0));
+    GC_FORCED.with(|c| c.set(0));
+}
+
+/// `(allocations seen, collections forced)` since the schedule was installed
+pub fn gc_schedule_stats() -> (usize, usize) {
+    (GC_ALLOC_INDEX.with(|c| c.get()), GC_FORCED.with(|c| c.get()))
+}
+
+pub(crate) fn gc_schedule_next() -> bool {
+    let i = GC_ALLOC_INDEX.with(|c| {
+        let i = c.get();
+        c.set(i + 1);
+        i
+    });
+    let forced = GC_SCHEDULE.with(|s| match &*s.borrow() {
+        GcSchedule::None => false,
+        GcSchedule::Every => true,
+        GcSchedule::Single(k) => *k == i,
+        GcSchedule::Mask(m) => (m >> (i % 64)) & 1 == 1,
+    });
+    if forced {
+        GC_FORCED.with(|c| c.set(c.get() + 1));
+    }
+    forced
+}
+
+/// In quarantine mode swept objects are poisoned instead of freed
+pub fn set_quarantine(on: bool) {
+    QUARANTINE.with(|c| c.set(on));
+}
+
+pub(crate) fn quarantine_enabled() -> bool {
+    QUARANTINE.with(|c| c.get())
+}
+
+pub(crate) fn quarantine_push(o: NonNull<CaoLangObject>) {
+    QUARANTINED.with(|q| q.borrow_mut().push(o));
+}
+
+/// Is this object a quarantined (swept) one?
+pub fn is_quarantined(o: NonNull<CaoLangObject>) -> bool {
+    QUARANTINED.with(|q| q.borrow().contains(&o))
+}
+
+pub fn quarantined_count() -> usize {
+    QUARANTINED.with(|q| q.borrow().len())
+}
+
+/// Release the quarantined headers (call after the VM that owned them has been cleared)
+pub fn release_quarantine() {
+    QUARANTINED.with(|q| {
+        for o in q.borrow_mut().drain(..) {
+            unsafe {
+                std::alloc::dealloc(
+                    o.as_ptr().cast(),
+                    std::alloc::Layout::new::<CaoLangObject>(),
+                );
+            }
+        }
+    });
+}
+
+pub(crate) fn null_alloc_proxy() -> AllocProxy {
+    CaoLangAllocator::new(std::ptr::null_mut(), usize::MAX).into()
+}
